@@ -157,7 +157,8 @@ static DBusMessage *reqs[NCALLS]; static dbus_uint32_t serials[NCALLS]; static i
 
 #ifdef WITH_BLOCK
 /* ---- environment of the blocking wait: a ghost clock and a ghost peer acting inside each transport iteration ---- */
-static long now_ms, start_ms = -1, last_ms; static int iters, reply_queued, closed_by_peer;
+static long now_ms, start_ms = -1, last_ms; static int iters, reply_queued, closed_by_peer, other_thread_completed;
+static void lock (void);
 void _dbus_get_monotonic_time (long *sec, long *usec)
 { now_ms += vf_range (0, 40000); if (start_ms < 0) start_ms = now_ms; last_ms = now_ms;
   if (iters >= (int) sizeof (SCRIPT) - 1 + 1 && TMO != DBUS_TIMEOUT_INFINITE) VF_ASSUME (now_ms - start_ms >= TMO);   /* bound: one silent iteration after the script the finite timeout has run out */
@@ -177,6 +178,17 @@ void _dbus_transport_do_iteration (DBusTransport *t, unsigned int flags, int tim
   if (what == 'R' && t->connected) { queue_msg (vf_bool () ? DBUS_MESSAGE_TYPE_METHOD_RETURN : DBUS_MESSAGE_TYPE_ERROR, serials[0]); reply_queued = 1; }
   else if (what == 'C') { t->connected = 0; closed_by_peer = 1; }
   else if (what == 'S' && t->connected) queue_msg (DBUS_MESSAGE_TYPE_SIGNAL, 0);
+  else if (what == 'T' && tmo[0].enabled)
+    {
+      /* ANOTHER THREAD, in the window in which the blocking iteration has dropped the connection lock around poll() (socket_do_iteration with
+       * DBUS_ITERATION_BLOCK): the main loop fires the call's timeout and dispatches the NoReply error.  The blocked thread must notice on return
+       * that its call was completed by somebody else and must not complete it again. */
+      _dbus_connection_unlock (&conn);
+      reply_handler_timeout (calls[0]);
+      dbus_connection_dispatch (&conn);
+      lock ();
+      other_thread_completed = 1;
+    }
 }
 #endif
 static void lock (void) { _dbus_rmutex_lock ((DBusRMutex *) 1); conn.have_connection_lock = 1; }
@@ -295,10 +307,11 @@ void harness (void)
     VF_ASSERT (completed_with_serial[0] == (int) serials[0], "by a message carrying the call's serial");
     VF_ASSERT (hfind (&ht, serials[0]) < 0 && (TMO == DBUS_TIMEOUT_INFINITE || !tmo[0].enabled), "and detached");
     if (reply_queued) VF_ASSERT (completed_errkind[0] == 0, "a reply that arrived during the wait is what completes the call");
-    if (completed_errkind[0] == 1 && !closed_by_peer)
+    if (completed_errkind[0] == 1 && !closed_by_peer && !other_thread_completed)
       VF_ASSERT (TMO != DBUS_TIMEOUT_INFINITE && last_ms - start_ms >= TMO, "a local NoReply while connected means the call's finite timeout has elapsed (never for an infinite timeout)");
     if (completed_errkind[0] == 2) VF_ASSERT (closed_by_peer, "a local Disconnected error only if the connection closed");
     if (closed_by_peer && !reply_queued) VF_ASSERT (completed_errkind[0] == 1 || completed_errkind[0] == 2, "a close without a reply completes the call with a locally generated error");
+    if (other_thread_completed) VF_WITNESS_OPT ("completed by the other thread's dispatch while blocked");
     if (reply_queued) VF_WITNESS_OPT ("blocking wait completed by the reply");
     if (completed_errkind[0] == 1 && !closed_by_peer) VF_WITNESS_OPT ("blocking wait timed out");
     if (completed_errkind[0] == 2) VF_WITNESS_OPT ("blocking wait ended by Disconnected");
